@@ -144,6 +144,7 @@ func checkC03(e *Engine, r *Report) {
 		}
 	}
 	checkAnnotationPolarity(e, r, "R2 eligibility table")
+	checkSettersStore(e, r, "R5 ledger symmetry", pkgTA, "grant", "request")
 	// ---- rule 1d: the capacities the ranking compares are the pool's allocatable capacities minus the request ----
 	if getScore := r.Anchor(pkgTA, "supply.GetScore"); getScore != nil {
 		fIsoSet := e.Field(pkgTA, "supply", "isolated")
